@@ -120,6 +120,17 @@ func (c *Ctx) Note(format string, a ...interface{}) {
 	c.Notes = append(c.Notes, fmt.Sprintf(format, a...))
 }
 
+// Once reports true the first time it is called with name in this run (shared rules
+// included by several property checks run once).
+func (c *Ctx) Once(name string) bool {
+	k := "\x00once:" + name
+	if c.seen[k] {
+		return false
+	}
+	c.seen[k] = true
+	return true
+}
+
 // Analysed records a function the rule looked at.
 func (c *Ctx) Analysed(fn string) { c.funcs[fn] = true }
 
